@@ -437,14 +437,14 @@ def _fd(**kw):
 
 
 CLAUSES = [
-    Clause("compose_is_matrix_product", c_compose, _fd(a=_poses(), b=_poses(), fa=_FORM, fb=_FORM), 1500, 15000 * 16),
-    Clause("inv_is_group_inverse", c_inverse, _fd(a=_poses(), fa=_FORM), 1500, 15000 * 16),
+    Clause("compose_is_matrix_product", c_compose, _fd(a=_poses(), b=_poses(), fa=_FORM, fb=_FORM), 1500, 48000),
+    Clause("inv_is_group_inverse", c_inverse, _fd(a=_poses(), fa=_FORM), 1500, 48000),
     Clause("composition_associative", c_assoc,
-           _fd(a=_poses(), b=_poses(), c=_poses(), fa=_FORM, fb=_FORM, fc=_FORM), 1500, 15000 * 16),
-    Clause("local_global_mutual_inverse", c_frames, _fd(r=_poses(), x=_poses(), fr=_FORM, fx=_FORM), 1500, 15000 * 16),
-    Clause("constructor_forms_agree", c_ctor_forms, _ctor_cases(), 1500, 15000 * 16),
-    Clause("nested_pair_form", c_nested_pair, _ctor_cases(), 1000, 8000 * 16),
-    Clause("quaternion_get_set_identity", c_quat_roundtrip, _fd(a=_poses(), fa=_FORM), 1500, 15000 * 16),
-    Clause("matmul_raw_matrix_right", c_matmul_raw_right, _fd(a=_poses(), b=_poses(), fa=_FORM), 1000, 8000 * 16),
-    Clause("matmul_raw_matrix_left", c_matmul_raw_left, _fd(a=_poses(), b=_poses(), fa=_FORM), 1000, 8000 * 16),
+           _fd(a=_poses(), b=_poses(), c=_poses(), fa=_FORM, fb=_FORM, fc=_FORM), 1500, 48000),
+    Clause("local_global_mutual_inverse", c_frames, _fd(r=_poses(), x=_poses(), fr=_FORM, fx=_FORM), 1500, 48000),
+    Clause("constructor_forms_agree", c_ctor_forms, _ctor_cases(), 1500, 48000),
+    Clause("nested_pair_form", c_nested_pair, _ctor_cases(), 1000, 32000),
+    Clause("quaternion_get_set_identity", c_quat_roundtrip, _fd(a=_poses(), fa=_FORM), 1500, 48000),
+    Clause("matmul_raw_matrix_right", c_matmul_raw_right, _fd(a=_poses(), b=_poses(), fa=_FORM), 1000, 32000),
+    Clause("matmul_raw_matrix_left", c_matmul_raw_left, _fd(a=_poses(), b=_poses(), fa=_FORM), 1000, 32000),
 ]
